@@ -7,7 +7,7 @@ import Anysystem.Proofs.StoreRefine
 namespace Anysystem
 variable {σ T : Type} [TimeOps T]
 
-theorem Rep.push_ok {st : Store} {a : AStore} (h : Rep st a) (e : Ev)
+theorem Rep.push_ok_snap {st : Store} {a : AStore} (h : Rep st a) (e : Ev)
     (he : e.isMsg = true ∨ e.isTimer = true) :
     ∃ st' a', st.push e = .ok (st', a.next) ∧ Rep st' a' ∧
       a'.pending = a.pending ++ [(a.next, e)] ∧ a'.next = a.next + 1 := by
@@ -62,7 +62,7 @@ theorem snapFold_spec (bits : T → Nat) (clock : T) (maxDelay : Nat) (crashed :
         simp only [hc, if_true, List.filter_cons, hk]
         exact ih st a h
       · have hk : snapKeep crashed e = true := by simpa [snapKeep, hd] using hc
-        obtain ⟨st1, a1, hpush, hrep1, hp1, hn1⟩ := h.push_ok (.msg m src dst (.noFail maxDelay)) (Or.inl rfl)
+        obtain ⟨st1, a1, hpush, hrep1, hp1, hn1⟩ := h.push_ok_snap (.msg m src dst (.noFail maxDelay)) (Or.inl rfl)
         obtain ⟨st', a', hf, hrep', hp', hn'⟩ := ih st1 a1 hrep1
         refine ⟨st', a', ?_, hrep', ?_, ?_⟩
         · simp only [hc, hpush, Except.map]
@@ -73,7 +73,7 @@ theorem snapFold_spec (bits : T → Nat) (clock : T) (maxDelay : Nat) (crashed :
     | timer p name =>
       have hk : snapKeep crashed e = true := by simp [snapKeep, hd]
       obtain ⟨st1, a1, hpush, hrep1, hp1, hn1⟩ :=
-        h.push_ok (.timer p name (bits (TimeOps.sub e.time clock))) (Or.inr rfl)
+        h.push_ok_snap (.timer p name (bits (TimeOps.sub e.time clock))) (Or.inr rfl)
       obtain ⟨st', a', hf, hrep', hp', hn'⟩ := ih st1 a1 hrep1
       refine ⟨st', a', ?_, hrep', ?_, ?_⟩
       · simp only [hpush, Except.map]
